@@ -42,6 +42,11 @@ func ProjectList(list bsonkit.List, projection bsonkit.Doc) (bsonkit.List, error
 // Project will apply the specified project to the document and return the
 // resulting document.
 func Project(doc, projection bsonkit.Doc) (bsonkit.Doc, error) {
+	// work on a clone: the result is assembled from values of the document
+	// and later writes (nested inclusions, operator overlays) would otherwise
+	// go through to the original
+	doc = bsonkit.Clone(doc)
+
 	// prepare state
 	state := projectState{
 		merge: map[string]interface{}{},
